@@ -313,8 +313,22 @@ fn int_literal(v: i128, rng: &mut Rng) -> Vec<u8> {
         match rng.below(8) {
             0 => format!("#H{:X}", v).into_bytes(),
             1 => format!("#h{:x}", v).into_bytes(),
-            2 => format!("#Q{:o}", v).into_bytes(),
-            3 => format!("#B{:b}", v).into_bytes(),
+            2 => {
+                if v % 2 == 0 {
+                    format!("#Q{:o}", v).into_bytes()
+                }
+                else {
+                    format!("#q{:o}", v).into_bytes()
+                }
+            }
+            3 => {
+                if v % 2 == 0 {
+                    format!("#B{:b}", v).into_bytes()
+                }
+                else {
+                    format!("#b{:b}", v).into_bytes()
+                }
+            }
             4 => format!("+{}", v).into_bytes(),
             5 => format!("00{}", v).into_bytes(),
             _ => format!("{}", v).into_bytes(),
